@@ -341,7 +341,7 @@ def scripts_c10(tier, rng):
                                                  [1, 2, 3, 11, 12, 13, 27, 28, 29, 40, 1023, 1024, 1025, 33000,
                                                   65535, 65536, 65537, 200000])]
             if tier == "quick":
-                zs = [zs[rng.below(len(zs))] for _ in range(5)]
+                zs = sorted({zs[rng.below(len(zs))] for _ in range(5)})
                 # a long zero tail (more than 64 KiB) at one boundary
                 zs.append((bnd[rng.below(len(bnd))], rng.choice([65537, 70001, 131072])))
             for (b, m) in zs:
@@ -487,7 +487,7 @@ def scripts_c09(tier, rng):
             mask = rng.choice([1, 2, 4, 8, 16, 32, 64, 128, 255, 1])
             # reopen configurations: truncation disabled, tiny or zero read buffers
             tr = rng.choice([["cfg tr=0"], ["cfg tr=0 rb=3"], ["cfg rb=0"], ["cfg rb=1"], [], [], []])
-            out.append((f"{name}f{fid}p{p}m{mask}t{len(tr)}",
+            out.append((f"{name}f{fid}p{p}m{mask}t{len(out)}",
                         pre + tr + [f"fsop flip {fid} {p} {mask}", "dir", "open", "st", READALL, "dir"]))
         # every byte of the head record of one middle chunk, with a mask that makes lengths grow
         if len(lay) >= 3 and rng.chance(1, 2):
@@ -545,7 +545,7 @@ def scripts_c09(tier, rng):
             fid, ln, du, bnd = closed[rng.below(len(closed))]
             p = rng.below(bnd[-1])
             mask = rng.choice([1, 4, 64, 255])
-            out.append((f"{name}f{fid}p{p}m{mask}", pre + [f"fsop flip {fid} {p} {mask}", READALL, "iter"]))
+            out.append((f"{name}f{fid}p{p}m{mask}n{len(out)}", pre + [f"fsop flip {fid} {p} {mask}", READALL, "iter"]))
     return out, {"bases": nb}
 
 
